@@ -87,8 +87,17 @@ def havoc_value(eng, ctx, name, v, kinds):
 _bundle_n = [0]
 
 
+def _inv(spec, lc, k):
+    try:
+        return spec.inv(lc) or {}
+    except Unsupported:
+        raise
+    except Exception as e:
+        raise Unsupported('the invariant given for loop %d does not fit the loop found in the code (%s: %s)' % (k if k is not None else -1, type(e).__name__, e))
+
+
 def _emit_inv(eng, ctx, spec, lc, label, k):
-    clauses = spec.inv(lc) or {}
+    clauses = _inv(spec, lc, k)
     _bundle_n[0] += 1
     hyps = list(ctx.pc) + list(eng.hyps_extra)     # evaluated after the clauses: boxing facts included
     from .engine import Oblig
@@ -97,7 +106,7 @@ def _emit_inv(eng, ctx, spec, lc, label, k):
 
 
 def _assume_inv(eng, ctx, spec, lc):
-    for name, t in (spec.inv(lc) or {}).items():
+    for name, t in _inv(spec, lc, None).items():
         ctx.assume(t)
 
 
@@ -204,11 +213,12 @@ def exec_for(eng, s, ctx):
         what, coll = _iterable(eng, c0, itv)
         if what == 'seq':
             fl = coll.fixed_len()
-            if spec is None:
-                if fl is None or fl > UNROLL_MAX:
-                    raise Unsupported('for loop over a sequence of symbolic length without an invariant')
-                yield from _unroll(eng, s, c0, coll.items())
+            if fl is not None and fl <= UNROLL_MAX:
+                # a sequence of known length is unrolled whether or not an invariant is on offer
+                yield from _unroll(eng, s, c0, coll.items(), spec, coll)
                 continue
+            if spec is None:
+                raise Unsupported('for loop over a sequence of symbolic length without an invariant')
             yield from _for_seq(eng, s, c0, coll, spec, k)
         else:
             if spec is None:
@@ -216,14 +226,18 @@ def exec_for(eng, s, ctx):
             yield from _for_map(eng, s, c0, what, coll, spec, k)
 
 
-def _unroll(eng, s, ctx, items):
+def _unroll(eng, s, ctx, items, spec=None, seq=None, entry=None):
+    entry = entry if entry is not None else ctx.st
     if not items:
+        if spec is not None and spec.on_exit:
+            n = z3.IntVal(len(seq.items()))
+            spec.on_exit(LoopCtx(eng, ctx, entry, ctx.st, i=n, n=n, seq=seq))
         yield from eng.exec_block(s.orelse, ctx)
         return
     for c in _bind_target(eng, ctx, s.target, items[0]):
         for o in eng.exec_block(s.body, c):
             if o.kind in ('next', 'continue'):
-                yield from _unroll(eng, s, o.ctx, items[1:])
+                yield from _unroll(eng, s, o.ctx, items[1:], spec, seq, entry)
             elif o.kind == 'break':
                 yield Out('next', o.ctx)
             else:
@@ -295,7 +309,7 @@ def _for_map(eng, s, ctx, what, sv, spec, k):
 def comprehension(eng, ctx, e):
     """List comprehensions over a concrete-length sequence are unrolled; over a symbolic sequence the body must be
     a non-forking expression and the result is the pointwise image (automatic invariant out[j] = body(xs[j]))."""
-    if len(e.generators) != 1 or e.generators[0].ifs or e.generators[0].is_async:
+    if len(e.generators) != 1 or e.generators[0].is_async:
         raise Unsupported('comprehension shape')
     g = e.generators[0]
     for c0, itv in eng.ev(g.iter, ctx):
@@ -309,6 +323,8 @@ def comprehension(eng, ctx, e):
                 yield from _comp_unroll(eng, e, c0, coll.items(), [])
                 continue
             # symbolic length: pointwise image
+            if g.ifs:
+                raise Unsupported('filtered comprehension over a sequence of symbolic length')
             n = coll.length()
             j = smt.fresh('cj', I)
             fid = c0.fid
@@ -346,8 +362,24 @@ def _comp_unroll(eng, e, ctx, items, acc):
         return
     g = e.generators[0]
     for c in _bind_target(eng, ctx, g.target, items[0]):
-        for c2, v in eng.ev(e.elt, c):
-            if isinstance(v, Raised):
-                yield c2, v
-            else:
-                yield from _comp_unroll(eng, e, c2, items[1:], acc + [v])
+        def body(c):
+            for c2, v in eng.ev(e.elt, c):
+                if isinstance(v, Raised):
+                    yield c2, v
+                else:
+                    yield from _comp_unroll(eng, e, c2, items[1:], acc + [v])
+
+        def filt(c, conds):
+            if not conds:
+                yield from body(c)
+                return
+            for c2, t in eng.ev(conds[0], c):
+                if isinstance(t, Raised):
+                    yield c2, t
+                    continue
+                for c3, side in eng.branch(c2, eng.truth(c2, t)):
+                    if side:
+                        yield from filt(c3, conds[1:])
+                    else:
+                        yield from _comp_unroll(eng, e, c3, items[1:], acc)
+        yield from filt(c, list(g.ifs))
